@@ -27,6 +27,9 @@ open Ezpz
 #check @GN.contraction_gives_C02
 #check @GN.gauss_newton_local_C02
 #check @GN.gauss_newton_local_C02_of_continuous_jacobian
+#check @hasFDerivAt_rOf_regular                     -- the model's residual is Fréchet differentiable (15 kinds)
+#check @newtonStep_eq_gnMap                         -- one model round = the damped Gauss–Newton map
+#check @model_newtonRun_C02                         -- C02 for the rounds the model's loop executes
 #check @GN.damped_defect_on_kernel                 -- why F15 happens
 
 /-! ### C03 — priorities -/
